@@ -38,7 +38,11 @@ class HMC804(BasePowerSupplyDriver):
         await asyncio.wait_for(writer.drain(), self.timeout)
 
     async def _recv_line(self, reader: asyncio.StreamReader) -> str:
-        return (await asyncio.wait_for(reader.readline(), self.timeout)).decode().strip()
+        line = await asyncio.wait_for(reader.readline(), self.timeout)
+        if not line.endswith(b"\n"):
+            # readline() returns what it has got when the peer closes the connection.
+            raise ConnectionError(f"connection closed within the response: {line!r}")
+        return line.decode().strip()
 
     async def _close_conn(self, writer: asyncio.StreamWriter) -> None:
         writer.close()
